@@ -29,6 +29,7 @@ CONFIGS = [("on", 0), ("on", 0), ("off", 0), ("off", 0), ("on", 2)]       # case
 MUTATIONS = [
     "none", "none",
     "dup_cl_same", "cl_list_same", "dup_cl_conflict", "dup_cl_conflict_rev", "cl_list_conflict",
+    "dup_cl_same_te", "cl_list_same_te", "dup_cl_same_te_first",
     "cl_list_dup_then_conflict", "cl_list_dup_then_junk", "cl_field_then_list_conflict", "cl_three_fields_conflict_last",
     "cl_te", "te_cl", "cl_te_short",
     "te_ows", "te_tab", "te_case", "te_trailing_ws", "te_x_chunked", "te_two_headers_gzip_chunked",
@@ -130,6 +131,13 @@ def mutated(x, r, mut):
         return none(x.head("POST", name, [cl(n + len(SM)), cl(n)]) + B + SM)
     if mut == "cl_list_conflict":
         return none(x.head("POST", name, [b"Content-Length: %d, %d" % (n, n + len(SM))]) + B + SM)
+    # tolerated equal duplicates of Content-Length TOGETHER with Transfer-Encoding: the chunked coding must still win
+    # (or the message be rejected); the (sanitised) Content-Length must not survive next to a de-chunked body
+    if mut in ("dup_cl_same_te", "cl_list_same_te", "dup_cl_same_te_first"):
+        w = CH + SM
+        k = r.choice([3, 5, len(B)])
+        fields = {"dup_cl_same_te": [cl(k), cl(k), TE], "cl_list_same_te": [b"Content-Length: %d, %d" % (k, k), TE], "dup_cl_same_te_first": [TE, cl(k), cl(k)]}[mut]
+        return {"wire": x.head("POST", name, fields) + w, "readings": [[P(), sm_spec]], "strict": False}
     # a conflicting/invalid member hidden BEHIND tolerated equal duplicates (every member must be examined)
     if mut == "cl_list_dup_then_conflict":
         return none(x.head("POST", name, [b"Content-Length: %d, %d, %d" % (n, n, n + len(SM))]) + B + SM)
